@@ -444,6 +444,16 @@ def _play(ctx, hist, d, lower, judge):
                 last_any[addr] = max(last_any.get(addr, -1e18), t)
             elif addr in created and ("%06X" % addr) in d.acs:
                 last_any[addr] = max(last_any.get(addr, -1e18), t)
+        # a consumer looks an address up the EAFP way (try: table[addr] / except KeyError): asking about an aircraft that was
+        # never listed is a question, not a message - the table is what the frames made it
+        for addr_ in hist["commb_only"][:1]:
+            try:
+                d.acs["%06X" % addr_]
+            except KeyError:
+                pass
+            except Exception as e_:  # noqa
+                ctx.violation("table-lookup-of-an-unknown-address-raises-%s" % type(e_).__name__, addr="%06X" % addr_)
+                return None, False
         keys = set()
         for key in d.acs.keys():
             try:
